@@ -171,6 +171,9 @@ def run(ctx):
         ctx.violation("C10 fails on the real engine: %s" % f["why"],
                       dict(kind="implementation-monitor/L2", input=f,
                            replay_hint="suites.engine.run_case(engine_specs.waitfan, seed) reproduces the run"))
+    # the run-loop theorem (C10_run_loop_conserves_waiter_timeouts) rests on Model/Runner.v: tie it to _ControlLoopRunner
+    from props._engine_common import run_runnerdiff
+    run_runnerdiff(ctx, ctx.n(60, 1500), 'C10_run_loop_conserves_waiter_timeouts')
 
 
 def replay(ctx, path):
